@@ -71,17 +71,17 @@ var (
 // epoch of the simulated clock
 var base = rt.Date(2026, 1, 1, 0, 0, 0, 0, rt.UTC)
 
-func Now() Time                { return base.Add(Duration(sim.ClockRead())) }
-func Since(t Time) Duration    { return Now().Sub(t) }
-func Until(t Time) Duration    { return t.Sub(Now()) }
-func Sleep(d Duration)         { sim.ClockSleep(int64(d)) }
+func Now() Time                 { return base.Add(Duration(sim.ClockRead())) }
+func Since(t Time) Duration     { return Now().Sub(t) }
+func Until(t Time) Duration     { return t.Sub(Now()) }
+func Sleep(d Duration)          { sim.ClockSleep(int64(d)) }
 func Unix(sec, nsec int64) Time { return rt.Unix(sec, nsec) }
-func UnixMilli(ms int64) Time  { return rt.UnixMilli(ms) }
-func UnixMicro(us int64) Time  { return rt.UnixMicro(us) }
+func UnixMilli(ms int64) Time   { return rt.UnixMilli(ms) }
+func UnixMicro(us int64) Time   { return rt.UnixMicro(us) }
 func Date(year int, month Month, day, hour, min, sec, nsec int, loc *Location) Time {
 	return rt.Date(year, month, day, hour, min, sec, nsec, loc)
 }
-func Parse(layout, value string) (Time, error)      { return rt.Parse(layout, value) }
-func ParseDuration(s string) (Duration, error)      { return rt.ParseDuration(s) }
-func FixedZone(name string, offset int) *Location   { return rt.FixedZone(name, offset) }
-func LoadLocation(name string) (*Location, error)   { return rt.LoadLocation(name) }
+func Parse(layout, value string) (Time, error)    { return rt.Parse(layout, value) }
+func ParseDuration(s string) (Duration, error)    { return rt.ParseDuration(s) }
+func FixedZone(name string, offset int) *Location { return rt.FixedZone(name, offset) }
+func LoadLocation(name string) (*Location, error) { return rt.LoadLocation(name) }
